@@ -6,7 +6,7 @@
     cowat / supst interpreted by an arbitrary function family [fn]. *)
 From Coq Require Import ZArith QArith Qreals Reals List Bool.
 From Gen Require Import GenThermo GenTraced.
-From P Require Import Expr Bounds Regions Steam Tsat.
+From P Require Import Expr Common BoundsDefs Bounds Tsat.
 Import ListNotations.
 Close Scope Q_scope.
 Open Scope R_scope.
@@ -39,35 +39,6 @@ Theorem tsat_bounds_flag_exact : forall (fn : fnR) (coef : nat -> R) (p : R),
   (~ tsat_in_range fn p -> runR tsat_on_traced fn coef [p] = RNone).
 Proof. exact tsat_bounds. Qed.
 Print Assumptions tsat_bounds_flag_exact.
-
-(** ** the two region classifiers *)
-Theorem regions_agree : forall (fn67 fn97 : fnR) (coef67 coef97 : nat -> R) (t p : R),
-  t <= Q2R (350 # 1) \/ Q2R Tc1_C_Q < t -> away_from_curves fn67 fn97 t p ->
-  region67 fn67 coef67 t p = region97 fn97 coef97 t p.
-Proof. exact regions_agree_proof. Qed.
-Print Assumptions regions_agree.
-
-Theorem regions_out_of_bounds : forall (fn67 fn97 : fnR) (coef67 coef97 : nat -> R) (t p : R),
-  ~ (Q2R d001 <= t <= Q2R (800 # 1) /\ 0 <= p <= Q2R (100000000 # 1)) ->
-  region67 fn67 coef67 t p = RNone /\ region97 fn97 coef97 t p = RNone.
-Proof. exact regions_none. Qed.
-Print Assumptions regions_out_of_bounds.
-
-(** ** separated steam fraction: in [0, 1], non-decreasing in the enthalpy *)
-Theorem steam_fraction_range_mono_1 : forall (fn : fnR) (coef : nat -> R) (h h' p1 : R),
-  has_value (runR ssf1_traced fn coef [h; p1]) /\
-  0 <= ssf1 fn coef h p1 <= 1 /\
-  (hl fn p1 < hs fn p1 -> h <= h' -> ssf1 fn coef h p1 <= ssf1 fn coef h' p1).
-Proof. exact ssf1_range_mono. Qed.
-Print Assumptions steam_fraction_range_mono_1.
-
-Theorem steam_fraction_range_mono_2 : forall (fn : fnR) (coef : nat -> R) (h h' p1 p2 : R),
-  has_value (runR ssf2_traced fn coef [h; p1; p2]) /\
-  0 <= ssf2 fn coef h p1 p2 <= 1 /\
-  (hl fn p1 < hs fn p1 -> hl fn p2 < hs fn p2 -> hl fn p1 <= hs fn p2 -> h <= h' ->
-   ssf2 fn coef h p1 p2 <= ssf2 fn coef h' p1 p2).
-Proof. exact ssf2_range_mono. Qed.
-Print Assumptions steam_fraction_range_mono_2.
 
 (** ** saturation temperature inverts saturation pressure, for any root finder meeting its
        specification and any strictly increasing saturation curve *)
